@@ -1,13 +1,13 @@
 \* C06 translation equivariance -- thorough
 CONSTANTS
   ShiftStyle = "pad" LevelStyle = "match" TruncStyle = "exact" AnalyticStyle = "outer" BCubic = "plus"
-  Sizes = {202, 302, 402, 403, 404, 602}
+  Sizes = {202, 302, 402, 403, 602}
   Cells = {11, 23}
-  Halos = {99, 0, 1, 3, 4}
+  Halos = {99, 0, 1, 3}
   ModeSet = {202, 402, 204, 404, 1212}
   NZs = {3}
   LevelLists = "asc"
-  Tabs = {1, 2}
+  Tabs = {1}
   Analytic = {FALSE, TRUE}
   Family = "translate"
 INIT Init
